@@ -425,10 +425,15 @@ type relData struct {
 	p0g    string
 	ks     []kShape
 	os     []kShape // owner in .parent, w in .v
+	extraP int      // further parents p2, p3, ... (n = 2, no other links): the "wide" data sets
 }
 
 func (d relData) String() string {
-	return fmt.Sprintf("p1.n=%s p1.boss=%q p0.g=%q K=%v O=%v", pInt(d.p1n), d.p1boss, d.p0g, d.ks, d.os)
+	x := ""
+	if d.extraP > 0 {
+		x = fmt.Sprintf(" +%d parents", d.extraP)
+	}
+	return fmt.Sprintf("p1.n=%s p1.boss=%q p0.g=%q K=%v O=%v%s", pInt(d.p1n), d.p1boss, d.p0g, d.ks, d.os, x)
 }
 
 func i64p(v int64) *int64 { return &v }
@@ -549,6 +554,11 @@ func (n *relNode) loadRel(d relData, ids map[string]string) error {
 			return fmt.Errorf("self link: %v", errs)
 		}
 	}
+	for x := 0; x < d.extraP; x++ {
+		if err := create("P", fmt.Sprintf("p%d", 2+x), ", n: 2"); err != nil {
+			return err
+		}
+	}
 	for i, k := range d.ks {
 		if err := create("K", fmt.Sprintf("k%d", i), fmt.Sprintf(", v: %d", k.v)+ref("parent_id", k.parent)); err != nil {
 			return err
@@ -568,6 +578,9 @@ func modelOf(d relData, ids map[string]string) *rmodel {
 	m.add(&rdoc{Coll: "G", Name: "g0", Ints: map[string]*int64{"z": i64p(1)}, Refs: map[string]string{}})
 	m.add(&rdoc{Coll: "P", Name: "p0", Ints: map[string]*int64{"n": i64p(1)}, Refs: map[string]string{"g": d.p0g}})
 	m.add(&rdoc{Coll: "P", Name: "p1", Ints: map[string]*int64{"n": d.p1n}, Refs: map[string]string{"boss": d.p1boss, "g": "g0"}})
+	for x := 0; x < d.extraP; x++ {
+		m.add(&rdoc{Coll: "P", Name: fmt.Sprintf("p%d", 2+x), Ints: map[string]*int64{"n": i64p(2)}, Refs: map[string]string{}})
+	}
 	for i, k := range d.ks {
 		m.add(&rdoc{Coll: "K", Name: fmt.Sprintf("k%d", i), Ints: map[string]*int64{"v": i64p(k.v)}, Refs: map[string]string{"parent": k.parent}})
 	}
@@ -929,6 +942,18 @@ func runC09(args []string) int {
 			jobs = append(jobs, job{d, 1})
 		}
 	}
+	if thorough {
+		for _, d := range c09WideDatasets(4, 6) {
+			jobs = append(jobs, job{d, 0})
+		}
+	} else {
+		for _, d := range c09WideDatasets(3, 6) {
+			jobs = append(jobs, job{d, 0})
+		}
+		for _, d := range c09WideDatasets(4, 5) {
+			jobs = append(jobs, job{d, 0})
+		}
+	}
 	if mx, _ := strconv.Atoi(os.Getenv("VERIF_C09_MAX")); mx > 0 && mx < len(jobs) { // development aid
 		stride := len(jobs) / mx
 		var sub []job
@@ -979,6 +1004,7 @@ func runC09(args []string) int {
 	r.Coverage["evaluations"] = st.requests
 	r.Coverage["distinct_nontrivial"] = nout
 	r.Coverage["rule"] = "every data set (p1.n in {1,2,null} x self link x second hop x multisets of <=k K documents over v in {1,2} x parent in {none,p0,p1} x 5 one-to-one layouts) x every history of <=d steps over 15 link/unlink/delete/create steps x every request of the relation grammar x 6 index configurations; distinct = distinct (request shape, canonical answer) pairs with a non-empty answer"
+	r.Coverage["wide_datasets_many_parents"] = "3 parents x 6 children and 4 parents x 5 children (thorough: 4 x 6): every assignment of children to parents, 5 request shapes"
 	r.Coverage["datasets"] = st.datasets
 	r.Coverage["states_after_histories"] = st.states
 	r.Coverage["history_steps_executed"] = st.steps
@@ -1030,10 +1056,11 @@ type relDataJSON struct {
 	KP     []string `json:"kparent"`
 	OW     []int64  `json:"ow"`
 	OP     []string `json:"oowner"`
+	ExtraP int      `json:"extra_parents"`
 }
 
 func (d relData) json() relDataJSON {
-	j := relDataJSON{P1N: d.p1n, P1Boss: d.p1boss, P0G: d.p0g}
+	j := relDataJSON{P1N: d.p1n, P1Boss: d.p1boss, P0G: d.p0g, ExtraP: d.extraP}
 	for _, k := range d.ks {
 		j.KV = append(j.KV, k.v)
 		j.KP = append(j.KP, k.parent)
@@ -1046,7 +1073,7 @@ func (d relData) json() relDataJSON {
 }
 
 func (j relDataJSON) data() relData {
-	d := relData{p1n: j.P1N, p1boss: j.P1Boss, p0g: j.P0G}
+	d := relData{p1n: j.P1N, p1boss: j.P1Boss, p0g: j.P0G, extraP: j.ExtraP}
 	for i := range j.KV {
 		d.ks = append(d.ks, kShape{j.KV[i], j.KP[i]})
 	}
@@ -1057,6 +1084,32 @@ func (j relDataJSON) data() relData {
 }
 
 // c09Dataset loads one data set everywhere and explores the histories depth-first (snapshots).
+// c09WideDatasets: nP parents and nK children, every assignment of children to parents (the last
+// child has v = 2, the others v = 1): many parents with interleaved children in index order.
+func c09WideDatasets(nP, nK int) []relData {
+	var out []relData
+	total := 1
+	for i := 0; i < nK; i++ {
+		total *= nP
+	}
+	for a := 0; a < total; a++ {
+		d := relData{p1n: i64p(1), extraP: nP - 2}
+		x := a
+		for k := 0; k < nK; k++ {
+			v := int64(1)
+			if k == nK-1 {
+				v = 2
+			}
+			d.ks = append(d.ks, kShape{v, fmt.Sprintf("p%d", x%nP)})
+			x /= nP
+		}
+		out = append(out, d)
+	}
+	return out
+}
+
+var c09WideShapes = map[string]bool{"P{kids}": true, "P(kids.v)": true, "K(parent.n)": true, "P{_count _sum kids}": true, "K(order parent.n)": true}
+
 func c09Dataset(r *rep.Run, st *c09stats, nodes []*relNode, data relData, depth int) error {
 	ids := map[string]string{}
 	for _, n := range nodes {
@@ -1067,6 +1120,15 @@ func c09Dataset(r *rep.Run, st *c09stats, nodes []*relNode, data relData, depth 
 	atomic.AddInt64(&st.datasets, 1)
 	m := modelOf(data, ids)
 	reqs := c09Requests(m)
+	if data.extraP > 0 {
+		var sub []rreq
+		for _, q := range reqs {
+			if c09WideShapes[q.shape] {
+				sub = append(sub, q)
+			}
+		}
+		reqs = sub
+	}
 	steps := c09Steps()
 	var rec func(m *rmodel, hist []string, left int)
 	rec = func(m *rmodel, hist []string, left int) {
@@ -1241,6 +1303,8 @@ func c09DiffKind(m *rmodel, q rreq, base, cur []map[string]any) string {
 		return m.ref(d, q.rel) == nil
 	}
 	switch {
+	case len(cn) != len(cur) || len(bn) != len(base):
+		return "duplicate-rows"
 	case len(extra) == 0 && len(changed) == 0 && len(lost) > 0:
 		all := true
 		for _, n := range lost {
